@@ -1,7 +1,10 @@
 #!/bin/bash
-# run every registered quick check on the current tree; print one line per check
+# run every registered check of one tier on the current tree; print one line per check (optional 2nd argument: per-check timeout in seconds)
 cd /verif
+T=${2:-0}
 for id in $(python3 -c "import json;print(' '.join(c['property_id'] for c in json.load(open('MANIFEST.json'))['checks']))"); do
-  s=$(date +%s); out=$(./check $id --tier ${1:-quick} 2>&1); rc=$?; e=$(date +%s)
-  echo "$id exit=$rc $((e-s))s $(echo "$out" | grep -E 'VIOLATION|TOOL-ERROR' | head -2 | tr '\n' ' ')"
+  s=$(date +%s)
+  if [ "$T" -gt 0 ]; then out=$(timeout $T ./check $id --tier ${1:-quick} 2>&1); rc=$?; else out=$(./check $id --tier ${1:-quick} 2>&1); rc=$?; fi
+  e=$(date +%s)
+  echo "$id exit=$rc $((e-s))s $(echo "$out" | grep -E 'VIOLATION|TOOL-ERROR' | head -2 | tr '\n' ' ' | cut -c1-300)"
 done
